@@ -3,7 +3,10 @@
     The estimator (EstimatedLog2::log2_bounds) is a parameter: E, egt, ib/fb/qb with ANY interpretation lo_ok/hi_ok
     such that "a lower estimate of x exceeds an upper estimate of y" implies y < x. *)
 From Dashu Require Import Base.Prelude Cross.XVal Cross.XOrdModel Cross.XDispatch Cross.XOrdProofs Cross.XPrimProofs
-  Cross.XRatioProofs Cross.XDispatchProofs Cross.XHashProofs Cross.XEstInstance.
+  Cross.XRatioProofs Cross.XDispatchProofs Cross.XHashProofs Cross.XEstInstance
+  Cross.XLog2Model Cross.XLog2Flocq Cross.XEstF32Model Cross.XEstF32.
+From Coq Require Import Reals.
+From Flocq Require Import Core IEEE754.BinarySingleNaN.
 Open Scope Z_scope.
 
 Theorem C14_nan_incomparable : forall a, spec_cmp XNaN a = None /\ spec_cmp a XNaN = None.
@@ -178,3 +181,84 @@ Theorem C14_fsame_run_is_spec : forall B s1 e1 s2 e2, 2 <= B -> fwf s1 e1 -> fwf
   Some (fsame_run B s1 e1 s2 e2) = spec_cmp (fval B s1 e1) (fval B s2 e2).
 Proof. exact fsame_run_is_spec. Qed.
 Print Assumptions C14_fsame_run_is_spec.
+
+(** ------------------------------------------------------------------------------------------------
+    Deepening round 3.  The f32 arithmetic of EstimatedLog2::log2_bounds / Repr::digits_ub (std build), transcribed
+    on Flocq's binary32 (Cross/XLog2Model.v), satisfies the estimator contract above: it is no longer an assumption
+    but a theorem modulo ONE assumption about libm, [lg_contract lg]: f32::log2 of an integer in [1, 2^24] is finite
+    and its two f32 neighbours enclose the exact logarithm. *)
+
+(** the assumption is satisfiable: the correctly rounded logarithm meets it *)
+Theorem C14_libm_contract_inhabited : lg_contract lg_nearest.
+Proof. exact lg_nearest_ok. Qed.
+Print Assumptions C14_libm_contract_inhabited.
+
+(** the shift addition: est + shift rounded to nearest, then one step outwards, keeps a one-step enclosure *)
+Theorem C14_f32_shift_lower : forall p k, generic_format radix2 (FLT_exp (3 - 128 - 24) 24) p -> (0 < p)%R ->
+  cexp radix2 (FLT_exp (3 - 128 - 24) 24) p <= 0 -> 0 <= k ->
+  (pred radix2 (FLT_exp (3 - 128 - 24) 24)
+     (round radix2 (FLT_exp (3 - 128 - 24) 24) ZnearestE (succ radix2 (FLT_exp (3 - 128 - 24) 24) p + IZR k)) <= p + IZR k)%R.
+Proof. exact shift_lower. Qed.
+Print Assumptions C14_f32_shift_lower.
+
+Theorem C14_f32_shift_upper : forall b k, generic_format radix2 (FLT_exp (3 - 128 - 24) 24) b -> (0 < b)%R ->
+  cexp radix2 (FLT_exp (3 - 128 - 24) 24) b <= 0 -> 0 <= k ->
+  (succ radix2 (FLT_exp (3 - 128 - 24) 24) b + IZR k <=
+   succ radix2 (FLT_exp (3 - 128 - 24) 24) (round radix2 (FLT_exp (3 - 128 - 24) 24) ZnearestE (b + IZR k)))%R.
+Proof. exact shift_upper. Qed.
+Print Assumptions C14_f32_shift_upper.
+
+(** impl_log2_bounds_for_uint (std), every unsigned type up to u128: finite bounds that enclose log2 x *)
+Theorem C14_f32_uint_log2_bounds : forall lg, lg_contract lg -> forall x, 1 <= x < 2 ^ 128 ->
+  encl 130 (fst (u_log2_bounds lg x)) (snd (u_log2_bounds lg x)) (log2R (IZR x)) /\
+  (2 <= x -> (0 <= B2R (fst (u_log2_bounds lg x)))%R).
+Proof. exact u_log2_sound. Qed.
+Print Assumptions C14_f32_uint_log2_bounds.
+
+(** rational Repr::log2_bounds (numerator and denominator fit a double word) *)
+Theorem C14_f32_ratio_log2_bounds : forall lg, lg_contract lg -> forall w, 8 <= w <= 64 -> forall n d,
+  n <> 0 -> 0 < d -> Z.abs n < 2 ^ (2 * w) -> d < 2 ^ (2 * w) ->
+  let b := q_log2_bounds lg w n d in
+  is_finite (fst b) = true /\ is_finite (snd b) = true /\
+  (B2R (fst b) <= log2R (IZR (Z.abs n) / IZR d) <= B2R (snd b))%R.
+Proof. exact q_log2_sound. Qed.
+Print Assumptions C14_f32_ratio_log2_bounds.
+
+(** float Repr<B>::log2_bounds, as repaired in this round (an outward step after each of the three roundings):
+    every base, significands that fit a double word, EVERY exponent of the isize range *)
+Theorem C14_f32_float_log2_bounds : forall lg, lg_contract lg -> forall w, 8 <= w <= 64 -> forall B s e,
+  2 <= B < 2 ^ 128 -> s <> 0 -> Z.abs s < 2 ^ (2 * w) -> Z.abs e <= 2 ^ 63 ->
+  let b := f_log2_bounds lg w B s e in
+  is_finite (fst b) = true /\ is_finite (snd b) = true /\
+  (B2R (fst b) <= log2R (IZR (Z.abs s)) + IZR e * log2R (IZR B) <= B2R (snd b))%R.
+Proof. exact f_log2_sound. Qed.
+Print Assumptions C14_f32_float_log2_bounds.
+
+(** Repr::digits_ub over-estimates the number of digits (truncation `as usize`, LOG10_2, the division by log2 B) *)
+Theorem C14_f32_digits_ub : forall lg, lg_contract lg -> forall w, 8 <= w <= 64 -> forall B s,
+  2 <= B < 2 ^ (2 * w) -> s <> 0 -> Z.abs s < 2 ^ (2 * w) -> Z.abs s < B ^ digits_ub32 lg 64 w B s.
+Proof. exact digits_ub_sound. Qed.
+Print Assumptions C14_f32_digits_ub.
+
+(** the f32 comparison `a > b` on estimates decides the order of the estimated magnitudes *)
+Theorem C14_f32_filter_sound : forall a b x y, lo32 a x -> hi32 b y -> f_gt a b = true -> mlt y x.
+Proof. exact f_gt_sound. Qed.
+Print Assumptions C14_f32_filter_sound.
+
+(** THE PROPERTY, first sentence, with the library's own f32 estimates: every NumOrd / AbsOrd pair and the
+    same-base PartialOrd return the order of the exact values (integer parts within a double word, any exponent) *)
+Theorem C14_num_ord_f32 : forall lg, lg_contract lg -> forall w, 8 <= w <= 64 -> forall a b r,
+  wf a -> wf b -> dom w a -> dom w b -> ord_raw lg w a b = Some r -> r = spec_cmp (val a) (val b).
+Proof. exact ord_raw_correct. Qed.
+Print Assumptions C14_num_ord_f32.
+
+Theorem C14_abs_ord_f32 : forall lg, lg_contract lg -> forall w, 8 <= w <= 64 -> forall a b c,
+  wf a -> wf b -> dom w a -> dom w b -> abs_raw lg w a b = Some c -> Some c = spec_abs_cmp (val a) (val b).
+Proof. exact abs_raw_correct. Qed.
+Print Assumptions C14_abs_ord_f32.
+
+Theorem C14_float_same_base_f32 : forall lg, lg_contract lg -> forall w, 8 <= w <= 64 -> forall B s1 e1 s2 e2,
+  2 <= B < 2 ^ w -> fwf s1 e1 -> fwf s2 e2 -> Z.abs s1 < 2 ^ (2 * w) -> Z.abs s2 < 2 ^ (2 * w) ->
+  Some (fsame_raw lg w B s1 e1 s2 e2) = spec_cmp (fval B s1 e1) (fval B s2 e2).
+Proof. exact fsame_raw_correct. Qed.
+Print Assumptions C14_float_same_base_f32.
